@@ -7,7 +7,7 @@
 //! (BOM-aware), then buffering via `BufReader`.
 
 use encoding_rs_io::DecodeReaderBytesBuilder;
-use saphyr_parser::BufferedInput;
+use saphyr_parser::{BorrowedInput, BufferedInput, Input};
 use std::cell::RefCell;
 use std::io::{self, BufReader, Error, Read};
 use std::rc::Rc;
@@ -124,6 +124,83 @@ impl<R: Read> Iterator for ChunkedChars<R> {
                 None
             }
         }
+    }
+}
+
+/// Streaming input that stops word scans at the end of the stream.
+///
+/// `BufferedInput` represents the end of input by an endless run of NUL characters. The
+/// parser's generic `fetch_while_is_yaml_non_space` treats NUL as an ordinary non-space
+/// character, so a directive line that runs into the end of the stream (for example the input
+/// `%YAML` without a line break) would never finish scanning and would grow its buffer without
+/// bound. This wrapper forwards everything to the wrapped input and ends that scan at the
+/// end-of-input marker, like the string input does.
+pub struct EofSafeInput<T: Iterator<Item = char>>(BufferedInput<T>);
+
+impl<T: Iterator<Item = char>> EofSafeInput<T> {
+    pub fn new(inner: BufferedInput<T>) -> Self {
+        Self(inner)
+    }
+}
+
+impl<T: Iterator<Item = char>> Input for EofSafeInput<T> {
+    #[inline]
+    fn lookahead(&mut self, count: usize) {
+        self.0.lookahead(count);
+    }
+    #[inline]
+    fn buflen(&self) -> usize {
+        self.0.buflen()
+    }
+    #[inline]
+    fn bufmaxlen(&self) -> usize {
+        self.0.bufmaxlen()
+    }
+    #[inline]
+    fn raw_read_ch(&mut self) -> char {
+        self.0.raw_read_ch()
+    }
+    #[inline]
+    fn raw_read_non_breakz_ch(&mut self) -> Option<char> {
+        self.0.raw_read_non_breakz_ch()
+    }
+    #[inline]
+    fn skip(&mut self) {
+        self.0.skip();
+    }
+    #[inline]
+    fn skip_n(&mut self, count: usize) {
+        self.0.skip_n(count);
+    }
+    #[inline]
+    fn peek(&self) -> char {
+        self.0.peek()
+    }
+    #[inline]
+    fn peek_nth(&self, n: usize) -> char {
+        self.0.peek_nth(n)
+    }
+
+    fn fetch_while_is_yaml_non_space(&mut self, out: &mut String) -> usize {
+        let mut n_bytes = 0;
+        loop {
+            let c = self.look_ch();
+            // NUL marks the end of input here; it never ends on its own otherwise.
+            if c == '\0' || c == ' ' || c == '\t' || c == '\n' || c == '\r' || c == '\u{FEFF}' {
+                break;
+            }
+            n_bytes += c.len_utf8();
+            out.push(c);
+            self.skip();
+        }
+        n_bytes
+    }
+}
+
+impl<T: Iterator<Item = char>> BorrowedInput<'static> for EofSafeInput<T> {
+    #[inline]
+    fn slice_borrowed(&self, _start: usize, _end: usize) -> Option<&'static str> {
+        None
     }
 }
 
